@@ -564,6 +564,9 @@ func GenerateFlattenedFields(p Printer, childMsg *protogen.Message, prefix strin
 		//nolint:gocritic // if-else chain is clearer than switch for distinct boolean checks
 		if annotations.IsNullableField(childField) {
 			p("  %s: %s | null;", jsonName, tsType)
+		} else if annotations.GetEmptyBehavior(childField) == http.EmptyBehavior_EMPTY_BEHAVIOR_NULL {
+			// an empty message is serialized as null
+			p("  %s?: %s | null;", jsonName, tsType)
 		} else if IsOptionalField(childField) {
 			p("  %s?: %s;", jsonName, tsType)
 		} else {
